@@ -60,7 +60,10 @@ Masked(r, e, a, o) ==
       n == Len(r.out)
       added == SubSeq(r2.out, n + 1, Len(r2.out)) IN
   IF ~DEV_ReinviteNoTopicName \/ e.t \notin P2Ps \/ o.noname = {} THEN r2
-  ELSE [r2 EXCEPT !.out = r.out \o SelectSeq(added, LAMBDA x : ~(x.dst \in o.noname /\ x.dst \in Ends[e.t] /\ x.m.src = Peer(e.t, x.dst)))]
+  ELSE [r2 EXCEPT !.out = r.out \o SelectSeq(added, LAMBDA x : ~(x.dst \in o.noname /\ x.dst \in Ends[e.t] /\ x.m.src = Peer(e.t, x.dst)
+                                                          \* (presSingleUserOffline names the source by t.original(uid); the "off" / "off+dis"
+                                                          \*  of presSingleUserOfflineOffline are given the peer's id explicitly)
+                                                          /\ x.m.what \in {"?none", "?unkn", "gone"}))]
 RECURSIVE ApplyEvs(_, _, _, _)
 ApplyEvs(r, ev, a, o) == IF ev = <<>> THEN r ELSE ApplyEvs(Masked(r, Head(ev), a, o), Tail(ev), a, o)
 
